@@ -226,6 +226,37 @@ class SymEnv:
         """Explicit vacuity guard at this point of the body"""
         return self.ctx.reachable(name)
 
+    def claim_possible(self, name, cond, key=None, meta=None):
+        """Obligation of the existential kind: `cond` must be satisfiable on this path (e.g. two samples *can* differ).
+        Recorded as discharged when the solver finds a model; if it is impossible the claim is reported like a violated
+        claim, with a model of the path for the concrete replay (where cond then evaluates to False)"""
+        from .core import Obligation, _short
+
+        c = _b(cond.exact if isinstance(cond, Cond) else cond)
+        ob = Obligation(name, dict(meta or {}, key=key or name, kind="possible"))
+        import time as _t
+
+        t0 = _t.time()
+        status, model, reason, how = self.ctx.solve(c, self.ctx.timeout_ms)
+        ob.time = _t.time() - t0
+        ob.text = "possible: " + _short(c)
+        ob.size = 10
+        ob.nontrivial = True
+        if status == "sat":
+            ob.status = "unsat"  # discharged
+        elif status == "unsat":
+            st2, m2, _, _ = self.ctx.solve(z3.BoolVal(True), self.ctx.timeout_ms)
+            ob.status = "sat"
+            ob.model = m2 if st2 == "sat" else {}
+        else:
+            ob.status = "unknown"
+            ob.reason = reason
+        self.ctx.obligations.append(ob)
+        self.claims.append((name, key or name, ob))
+        if self.on_claim:
+            self.on_claim(name, key or name, ob)
+        return ob
+
     def raised(self, exname=None):
         """Symbolic condition under which a declared exception was raised at merge points so far"""
         cs = [rc for (_, en, rc) in self.ctx.raise_conds if exname is None or en == exname]
@@ -354,6 +385,10 @@ class ConcEnv:
     def check_reachable(self, name):
         return None
 
+    def claim_possible(self, name, cond, key=None, meta=None):
+        c = cond.relaxed if isinstance(cond, Cond) else cond
+        self.results[name] = bool(c)
+
     def raised(self, exname=None):
         return False
 
@@ -386,7 +421,29 @@ def run_body(body, name, tier, seed, functions=(), bounds=None, stubs=(), timeou
 
         env = SymEnv(ctx, tier, on_claim=on_claim)
         ctx.merge_exceptions = tuple(declared_exceptions)
-        body(env)
+        try:
+            body(env)
+        except Exception as e:  # raised by the code under analysis (engine exceptions derive from BaseException)
+            if type(e).__name__ in declared_exceptions:
+                return True
+            # an undeclared exception on a feasible path is a crash candidate: take a model of the path and replay it
+            from .core import Obligation
+            import traceback as _tb
+
+            w = ctx.reachable("path-of-crash")
+            ctx.obligations.remove(w)
+            ob = Obligation("no_undeclared_exception", dict(key="crash[%s]" % type(e).__name__))
+            ob.text = "%s: %s | %s" % (type(e).__name__, str(e)[:200], " <- ".join("%s:%d" % (f.name, f.lineno) for f in _tb.extract_tb(e.__traceback__)[-3:]))
+            ob.nontrivial = True
+            ob.size = 2
+            if w.status == "sat":
+                ob.status = "sat"
+                ob.model = w.model
+                sat_claims.append(("no_undeclared_exception", "crash[%s]" % type(e).__name__, w.model, ob.text))
+            else:
+                ob.status = "unsat" if w.status == "unsat" else "unknown"  # the path is infeasible: the exception cannot happen
+            ctx.obligations.append(ob)
+            return True
         if final_reach:
             w = ctx.reachable("path-reachable")
             if w.status == "sat":
@@ -442,6 +499,8 @@ def run_body(body, name, tier, seed, functions=(), bounds=None, stubs=(), timeou
                 elif cname in env.results and not env.results[cname]:
                     reproduced = True
                     detail = "(replayed from the solver's intermediate state at the cut points)" if inject else ""
+                elif cname == "no_undeclared_exception":
+                    detail = "no exception raised concretely"
                 else:
                     detail = "claim holds concretely" if cname in env.results else "claim not reached concretely"
             except ReplayUnavailable as e:
